@@ -76,7 +76,8 @@ def frame_task(task):
     ok = not bad and 'pots' in seen and 'get_up_hand' in seen
     return {'results': [{'id': 'C12/State.can_win_now/frame-does-not-read-hand_killing_statuses/D-inf', 'kind': 'A', 'prop': 'C12', 'label': 'D∞',
                          'status': 'valid' if ok else 'refuted', 'backend': 'AST read-set scan', 'seconds': 0.0, 'native': True,
-                         'detail': f'functions reached: {sorted(seen)}; readers: {bad}', 'meta': {'function': 'pokerkit.state.State.can_win_now'}}],
+                         'detail': f'functions reached: {sorted(seen)}; readers: {bad}', 'meta': {'function': 'pokerkit.state.State.can_win_now'}},
+                        __import__('props.scans', fromlist=['x']).purity_result(tree, 'C12')],
             'contract': None}
 
 
